@@ -693,9 +693,22 @@ pub fn apply_plan(plan: &mut Plan, options: &ApplyOptions) -> Result<()> {
     // exists on disk (a plain rename would silently replace it and that data is in no backup).
     // A case-only rename on a case-insensitive filesystem, where both names are the same file,
     // is the one legitimate exception.
+    // Two renames of one plan that share a destination would do the same to each other (the
+    // literal/regex planner can produce them: `foo1.txt` and `foo2.txt` under `foo\d` -> `bar`).
+    let mut planned_destinations: HashMap<&Path, &Path> = HashMap::new();
     for rename in &plan.paths {
         if rename.new_path.as_os_str().is_empty() || rename.new_path == rename.path {
             continue;
+        }
+        if let Some(other) = planned_destinations.insert(&rename.new_path, &rename.path) {
+            if other != rename.path {
+                return Err(anyhow!(
+                    "Refusing to rename {} and {} to {}: both would end up at the same path",
+                    other.display(),
+                    rename.path.display(),
+                    rename.new_path.display()
+                ));
+            }
         }
         let case_only = rename.path.to_string_lossy().to_lowercase()
             == rename.new_path.to_string_lossy().to_lowercase();
